@@ -12,17 +12,27 @@ whose logical pair (the sheet `z = 4` of X, the line `(2Lx−1, 2Ly−2, ·)` of
 generators and anticommutes with each other; `n` in closed form, `k = 1`; `get_deformation` follows
 the stated rule.
 
-RANK CLAUSE.  The GF(2) rank of the generators is `n − k` for most sizes of the family but NOT for
-all (recorded known finding): when the hole is one layer thin in one direction and at least four
-unit cells wide in the two others — `Lx = 3 ∧ Ly ≥ 6 ∧ Lz ≥ 6`, or `Ly = 4 ∧ Lx ≥ 5 ∧ Lz ≥ 6`, or
-`Lz = 4 ∧ Lx ≥ 5 ∧ Ly ≥ 6` — the rank is smaller (by `⌈ab/2⌉` with `a, b` the two wide hole
-dimensions minus one, measured on `Lx ≤ 7`, `Ly, Lz ≤ 9`): the code then encodes additional qubits
-that the class does not declare.  PROVED for every size of the three thin families
-(`thin_hole_family_x / _y / _z`: an undeclared second logical pair, hence rank `≤ n − 2`; the smallest
-case `(3, 6, 6)` also as the instance `thin_hole_rank_deficient`); that all OTHER sizes of the family
-have rank `n − k` is measured (every size with `Lx ≤ 7`, `Ly, Lz ≤ 9`, `n ≤ 900`), not proved.  The rank clause is therefore stated for instances only
-(`Properties/C01.lean`, `valid_HollowRhombicCode_partial`: every size of the family with
-`L_i ≤ 4`), not for all sizes.
+RANK CLAUSE.  The GF(2) rank of the generators is `n − k` for most sizes of the family but NOT for all
+(recorded known finding).  `Deficient Lx Ly Lz` — the hole is one layer of edges thin in one direction
+and at least two unit cells wide in the two others: `Lx = 3 ∧ Ly ≥ 6 ∧ Lz ≥ 6`, or `Ly = 4 ∧ Lx ≥ 5 ∧ Lz ≥ 6`,
+or `Lz = 4 ∧ Lx ≥ 5 ∧ Ly ≥ 6` — is the exact set of sizes with a smaller rank (measured on every size with
+`Lx ≤ 7`, `Ly, Lz ≤ 9`, `n ≤ 900`: 332 sizes, 40 deficient, deficit `⌈ab/2⌉` with `a, b ≥ 1` the numbers of
+unit cells of the thin hole in its two wide directions).
+NEGATIVE SIDE, proved for EVERY deficient size (`deficient_not_valid`; the three families
+`thin_hole_family_x / _y / _z`; instance `thin_hole_rank_deficient`): an undeclared second logical pair,
+hence rank `≤ n − 2`, not a valid `[[n, 1]]` code.
+POSITIVE SIDE: `rankFamily` (all cubes; the triangles selected by `selTri`: the family of
+`RhombicPlanarCode` restricted to the listed triangles, plus the triangles of axis 1 at the vertices
+next to the hole, the lower triangles of axis 0 under the hole edges `(3, ·, 3)`, `(·, 3, 3)` and those
+along the hole edge `(3, 3, ·)`) is independent for EVERY size (`generators_independent`: triangular
+family of probes, single qubits and one family of three-qubit probes) and has `n − 1` members for
+every size of the family that is neither deficient nor in the gap `Lz = 4 ∧ Lx ≥ 4 ∧ Ly ≥ 5`
+(`generators_count_partial`: partition of the selected triangles into boxes of arithmetic
+progressions, checkerboard counts): `valid_code_partial` — all four clauses of C01, rank included.
+Together: outside the gap a size of the family is a valid code iff it is not deficient
+(`valid_iff_not_deficient_partial`).  NOT proved: the rank clause for the non-deficient sizes of the
+gap, `(4, Ly ≥ 5, 4)` and `(Lx ≥ 5, 5, 4)` (measured: rank `n − 1`; instances with `L_i ≤ 4` in
+`Properties/C01.lean`).
 -/
 import PanqecVerif.Proofs.LatHollowRhombicCodeThinA
 import PanqecVerif.Proofs.LatHollowRhombicCodeThinB
